@@ -13,6 +13,10 @@ Ops (one per line):
   revoke granter=A grantee=B mt=write
   access marker=MR addr=A perms=withdraw|deposit  (perms=- : none)
   mstatus marker=MR status=cancelled              (proposed|finalized|active|cancelled|destroyed)
+  msend from=A outs=B:s1|s2,C:s3                  (bank MsgMultiSend, one input, signed by `from`)
+  mtransfer admin=A from=B to=C id=s1             (marker MsgTransfer of a scope token)
+  fund addr=A denom=$c amount=3                   (ordinary coins; `$c`, `$d`, `$nhash` are the non-scope denoms)
+  bal addr=A denom=$c                             (bank balance, any denom; pure)
   denom s1                                        (scope denom round trip; pure)
   dump
 The verdict of a `dump` line is the property's step checker (`stepClause`) applied to the
@@ -125,6 +129,16 @@ def parseOp (ws : List String) : Option Op :=
     pure (.access (← kv rest "marker") (← kv rest "addr") (← (splitList (← kv rest "perms")).mapM Access.ofString?))
   | "mstatus" :: rest => do
     pure (.mstatus (← kv rest "marker") (← (kv rest "status") >>= MStatus.ofString?))
+  | "msend" :: rest => do
+    let outs ← (splitList (← kv rest "outs") ",").mapM fun w =>
+      match w.splitOn ":" with
+      | [to, ids] => some (to, splitList ids)
+      | _ => none
+    pure (.msend (← kv rest "from") outs)
+  | "mtransfer" :: rest => do
+    pure (.mtransfer (← kv rest "admin") (← kv rest "from") (← kv rest "to") (← kv rest "id"))
+  | "fund" :: rest => do
+    pure (.fund (← kv rest "addr") (← kv rest "denom") (← (kv rest "amount") >>= parseNat?))
   | _ => none
 
 def kindName : StepKind → String
@@ -159,6 +173,10 @@ def stepLine (d : DState) (ws : List String) (impl : Option String) : DState × 
           | some c => s!"fail:{c}:{kindName st.kind}"
         ({ d with prevImpl := some post, last := none }, out, verdict)
   | ["denom", _] => (d, "ok", "-")
+  | ["bal", a, dn] =>
+    match kv [a, dn] "addr", kv [a, dn] "denom" with
+    | some a, some dn => (d, s!"ok {Ledger.bal d.model.ledger a dn}", "-")
+    | _, _ => (d, "bad-op", "-")
   | _ =>
     match parseOp ws with
     | none => (d, "bad-op", "-")
